@@ -8,6 +8,7 @@ import (
 	"math/rand"
 	"os"
 	"sort"
+	"strings"
 	"testing"
 	"time"
 )
@@ -19,6 +20,7 @@ type vfStreamPlan struct {
 	rval      uint32
 	threshold int
 	dcepFirst bool
+	seqWrap   int // >0: SSN/MID counters preset this far below their wrap
 }
 
 type vfXfer struct {
@@ -120,6 +122,9 @@ func vfPlanXfer(seed int64, profile string) vfXfer {
 		}
 		p.threshold = []int{0, 0, 1, 500, 3000}[r.Intn(5)]
 		p.dcepFirst = r.Intn(3) == 0
+		if profile == "wrap" || r.Intn(5) == 0 {
+			p.seqWrap = 1 + r.Intn(4)
+		}
 		return p
 	}
 	for i := 0; i < nA; i++ {
@@ -266,6 +271,9 @@ func vfRunXfer(t *testing.T, tr *vfTrace, x vfXfer) (hung bool) {
 				w.setRel(sp.ep, sp.sid, sp.unord, sp.rtype, sp.rval)
 			}
 			w.installCallback(sp.ep, sp.sid, sp.threshold)
+			if sp.seqWrap > 0 {
+				w.presetSeq(sp.ep, sp.sid, vfSeqBase{ssn: uint16(0) - uint16(sp.seqWrap), mid: uint32(0) - uint32(sp.seqWrap)})
+			}
 		}
 		sent := map[int]int{}
 		nWritten := 0
@@ -427,6 +435,8 @@ type vfDirected struct {
 	DropFwd int  // number of FORWARD-TSN packets to drop
 	RecvUnord bool // receiver application configures its stream object differently
 	Mixed  bool // odd messages are sent with the opposite ordering (ordered/unordered share the stream)
+	Burst  bool // all messages are written before the network moves (one FORWARD-TSN can cover several messages)
+	SeqWrap int // >0: SSN/MID counters preset this far below their wrap
 }
 
 func vfRunDirected(t *testing.T, tr *vfTrace, x vfDirected) bool {
@@ -441,6 +451,10 @@ func vfRunDirected(t *testing.T, tr *vfTrace, x vfDirected) bool {
 		w.installCallback(0, 1, 0)
 		// a second, fully reliable ordered stream: its traffic must never suffer (C07)
 		w.open(0, 2, 51)
+		if x.SeqWrap > 0 {
+			w.presetSeq(0, 1, vfSeqBase{ssn: uint16(0) - uint16(x.SeqWrap), mid: uint32(0) - uint32(x.SeqWrap)})
+			w.presetSeq(0, 2, vfSeqBase{ssn: uint16(0) - uint16(x.SeqWrap+1), mid: uint32(0) - uint32(x.SeqWrap+1)})
+		}
 		p := int(w.ep[0].a.maxPayloadSize)
 		fwdDropped := 0
 		ids := map[int]int{}
@@ -491,9 +505,17 @@ func vfRunDirected(t *testing.T, tr *vfTrace, x vfDirected) bool {
 			}
 			m, _ := w.write(0, 1, n, 51)
 			ids[m.ID] = i + 1
-			w.write(0, 2, 10+i, 53)
-			pumpSel()
+			if !x.Burst {
+				w.write(0, 2, 10+i, 53)
+				pumpSel()
+			}
 		}
+		if x.Burst { // the reliable stream's traffic follows the burst of partially reliable messages
+			for i := range x.NFrag {
+				w.write(0, 2, 10+i, 53)
+			}
+		}
+		pumpSel()
 		w.heal(200 * time.Second)
 		w.snapAll = true
 		w.quiesce()
@@ -532,8 +554,11 @@ func init() {
 						}
 					}
 					for di, ds := range sets {
-						for _, variant := range []string{"plain", "fwdlost", "recvcfg", "mixed"} {
+						for _, variant := range []string{"plain", "fwdlost", "recvcfg", "mixed", "burst", "burstwrap", "wrap"} {
 							if !full && variant != "plain" && di%3 != 0 {
+								continue
+							}
+							if only := os.Getenv("VF_ONLY"); only != "" && !strings.Contains(variant, only) {
 								continue
 							}
 							k++
@@ -549,6 +574,12 @@ func init() {
 								x.RecvUnord = true
 							case "mixed":
 								x.Mixed = true
+							case "burst":
+								x.Burst = true
+							case "burstwrap":
+								x.Burst, x.SeqWrap = true, 1+di%3
+							case "wrap":
+								x.SeqWrap = 1 + di%3
 							}
 							if vfRunDirected(t, tr, x) {
 								t.Fatalf("scenario %s hung", x.Label)
